@@ -248,5 +248,7 @@ def run(ctx, progs):
         r04a(ctx, Pf)
         r04c(ctx, Pf)
         ctx.config = "default"
+        from sa import witness
+        witness.run(ctx)
     ctx.assumptions += ["external code cannot reach Index.inner / InnerIndex.manifest / IndexWriter.pending_ops (private fields; "
                         "see the compile_fail witnesses in /verif/witness)"]
